@@ -4,6 +4,7 @@ CONSTANTS
   Reqs = {"gai0", "gai4", "gai6", "gaih0", "gaih4", "gaih6", "gailocal", "gail4only0", "gail4only6", "gail6only0", "gailother0", "gailit", "ghbn4", "ghbn6", "ghbnh4", "ghba4", "ghba6", "gni4", "ghbah4", "ghbah6", "ghbal6", "ghbam6", "gnih4", "gnil6"}
   Shapes = {"one", "three", "cname2", "chaos", "nodata", "nx", "five"}
   QCacheSet = {0}
+  V6Src = 0
   SortLists = {""}
   Repeat = 0
   MaxRep = 3
